@@ -2,7 +2,10 @@ package main
 
 import (
 	"fmt"
+	"io"
 	"sort"
+
+	"github.com/semihalev/twig"
 )
 
 func init() { runners["C06"] = runC06 }
@@ -25,6 +28,15 @@ func init() { runners["C06"] = runC06 }
 //
 // Everything else (output bytes, error class, number of calls of every callback) is compared with the model: a
 // difference there is a disagreement.
+var c06Settings = []struct {
+	name string
+	set  func(*twig.Engine)
+}{
+	{"SetDebug(true)", func(e *twig.Engine) { twig.SetDebugWriter(io.Discard); e.SetDebug(true) }},
+	{"SetCache(false)", func(e *twig.Engine) { e.SetCache(false) }},
+	{"SetDevelopmentMode(true)", func(e *twig.Engine) { twig.SetDebugWriter(io.Discard); e.SetDevelopmentMode(true) }},
+}
+
 func runC06(cases string, res *Result) {
 	readCases(cases, func(c Case) {
 		stream := c.str("stream")
@@ -69,6 +81,21 @@ func runC06(cases string, res *Result) {
 			if msg := c06RenderAfter(c); msg != "" {
 				res.add(Finding{Kind: "oracle", Where: stream + "/after", Case: c, Expected: "a later top-level render on the same engine uses forbidden names freely",
 					Observed: msg, Detail: "history: the case's main template (with its sandboxed include), then {{ x|spy }}{{ spyfn(n) }}{{ x|upper }} at the top level of another template"})
+				return
+			}
+		}
+		// engine settings that say nothing about the sandbox do not open or close it: the same case on an engine in debug
+		// mode, without cache, in development mode
+		for _, v := range c06Settings {
+			evalEngineTweak = v.set
+			out2, class2, spy2, _ := runEvalCase(c)
+			evalEngineTweak = nil
+			twig.SetDebugLevel(twig.DebugOff)
+			res.Evaluations++
+			res.Hist["setting:"+v.name]++
+			if out2 != out || class2 != class || fmt.Sprint(spy2) != fmt.Sprint(spy) {
+				res.add(Finding{Kind: "oracle", Where: stream + "/" + v.name, Case: c, Expected: observed + " " + fmt.Sprint(spy),
+					Observed: evalObserved(out2, class2) + " " + fmt.Sprint(spy2), Detail: "the same templates, context and policy on an engine with " + v.name + " behave differently"})
 				return
 			}
 		}
